@@ -85,7 +85,8 @@ pub fn dso_model(k: &Kernel, phdr: u64, phnum: u64) -> Option<DsoModel> {
         let mut name = Some(String::new());
         if l_name > 0 {
             // a 256-byte read that runs into unreadable memory legitimately comes back short
-            let avail = k.accessible_run(l_name, 256, false) as usize;
+            // a path is at most PATH_MAX (4096) bytes long
+            let avail = k.accessible_run(l_name, 4096, false) as usize;
             if avail == 0 {
                 return None;
             }
